@@ -9,14 +9,16 @@
   What is proved here for *all* coordinates and record lengths:
     overlap / containment / distance (line and ring, single- and multi-part, incl. origin-spanning)
     connect on a linear record (exact hull, argument order, idempotence, strand rule)
-    connect on a ring for ANY non-empty list of non-bridging locations (single parts, genes with introns)
-      and origin-spanning spans (`RingIn`): never fails, covers every input, well-formed span, never longer than the line hull,
-      inside every covering span shorter than half the record (hence the shortest covering arc whenever
-      one shorter than half exists, with length `shortestArc L (canon …)`, the executable formula the driver
-      evaluates; single parts and origin-spanning spans), independent of the argument order, idempotent — via the closed form
-      `connR` of Proofs/LocRing{Sort,Split,Hull,Merge}.lean, LocConnectRing{N,In,Cover,Hull,Short,Perm,Arc}.lean,
-      CanonIvs.lean, ShortestArc.lean; the two-input theorem
-      `connect_ring_two` (explicit gap formula) is kept
+    connect on a ring for ANY non-empty list of `RingIn` locations — parts inside the record; either not
+      bridging the origin (single parts, genes with introns) or splittable at it (origin-spanning spans,
+      origin-bridging genes): never fails, covers every input, well-formed span, independent of the
+      argument order, idempotent; never longer than the line hull (`RingInSpan`: no origin-bridging genes);
+      inside every covering span shorter than half the record, hence the shortest covering arc whenever one
+      shorter than half exists, with length `shortestArc L (canon …)` — the executable formula the driver
+      evaluates (`RingInStrict`: single parts and origin-spanning spans; for all `RingIn` with the inputs
+      read as spans).  Via the closed form `connR` of Proofs/LocRing{Sort,Split,Hull,Merge}.lean,
+      LocConnectRing{N,In,Cover,Hull,Short,Perm,Arc}.lean, CanonIvs.lean, ShortestArc.lean; the two-input
+      theorem `connect_ring_two` (explicit gap formula) is kept
     offset of a single-part location and of an origin-spanning span on a ring (rotation of the same bases)
     extension of a single-part location on a linear and on a circular record (exactly the bases within the distance)
     extension of an origin-spanning span on a circular record: exactly the bases within the distance for every
@@ -24,8 +26,8 @@
       return three overlapping parts: `extend_ring_area_three_parts_start/_end`, replayed on the real code)
     the feature ordering is a strict weak order
   Carried by the exhaustive small-scope correspondence + executable set-of-bases spec only
-  (see DESIGN.md): connect on a ring for origin-bridging inputs other than the two-part span (origin-bridging
-  genes with introns); extension of multi-exon locations; offset of multi-exon gene locations.
+  (see DESIGN.md): the error paths of connect (inputs that bridge the origin but cannot be split);
+  extension of multi-exon and of reverse-strand origin-spanning locations; offset of multi-exon gene locations.
 -/
 import ASV.Proofs.LocOrder
 import ASV.Proofs.LocString
@@ -146,10 +148,13 @@ theorem connect_ring_two (a b : Part) (L : Int) (ha : a.OK L) (hb : b.OK L) (hL 
         r.len = L - max (lineGapSigned a b) (originGap a b L)) :=
   connect_two_ring a b L ha hb hL
 
-/-- `RingIn L l`: `l` does not bridge the origin and all its parts are non-empty and inside `[0, L]`
-    (a single part of any strand as a simple location or a one-part compound; a gene with introns),
-    or `l` is an origin-spanning span `[x, L) + [0, y)` with `0 < y ≤ x < L` (`areaTwo x y L s` for
-    any single strand `s`, or the reverse-strand part order `areaTwoRev`).
+/-- `RingIn L l`: `l` has at least one part, all parts are non-empty and inside `[0, L]`, and if `l`
+    bridges the origin (`location_bridges_origin`) it can be split there
+    (`split_origin_bridging_location` does not raise).  This includes every single part of any strand
+    (simple location or one-part compound), genes with introns, the origin-spanning span
+    `areaTwo x y L s` = `[x, L) + [0, y)` with `0 < y ≤ x < L` for any single strand `s`, the
+    reverse-strand part order `areaTwoRev`, and origin-bridging genes with introns
+    (`RingInSpan.ringIn`, `RingInStrict.ringIn`).
 
     Connecting ANY non-empty list of such locations on a ring of length `L > 0` succeeds (no
     ValueError, no failed assertion, no unbounded recursion), the result covers every base of every
@@ -165,11 +170,15 @@ theorem connect_ring_covers_wf (ls : List Loc) (L : Int) (hne : ls ≠ []) (hL :
       ((toR_spec L hL l (hin l hl)).2.2.2 i hi)
   · exact connR_wf _ L hL (by simpa using hne) (toR_ok L hL ls hin)
 
-/-- … it is never longer than the line hull `max end − min start` of the inputs … -/
-theorem connect_ring_le_hull (ls : List Loc) (L : Int) (hne : ls ≠ []) (hL : 0 < L) (hin : ∀ l ∈ ls, RingIn L l) :
+/-- … it is never longer than the line hull `max end − min start` of the inputs (`RingInSpan`:
+    locations that do not bridge the origin and the origin-spanning spans `areaTwo` / `areaTwoRev`,
+    which reach both record ends; for an origin-bridging gene that does not, see
+    `connect_ring_hull_not_for_bridging_genes`) … -/
+theorem connect_ring_le_hull (ls : List Loc) (L : Int) (hne : ls ≠ []) (hL : 0 < L) (hin : ∀ l ∈ ls, RingInSpan L l) :
     ∃ r, connect ls (some L) = .ok r ∧ r.len ≤ maxList (ls.map (·.end)) - minList (ls.map (·.start)) := by
-  refine ⟨_, connect_ring_closed ls L hne hL hin, ?_⟩
-  have h := connR_le_hull _ L hL (by simpa using hne) (toR_ok L hL ls hin)
+  have hin' : ∀ l ∈ ls, RingIn L l := fun l hl => (hin l hl).ringIn
+  refine ⟨_, connect_ring_closed ls L hne hL hin', ?_⟩
+  have h := connR_le_hull _ L hL (by simpa using hne) (toR_ok L hL ls hin')
   have e1 : ((ls.map toR).map (RLoc.toLoc L)).map (·.start) = ls.map (·.start) := by
     rw [List.map_map, List.map_map]
     exact List.map_congr_left fun l hl => (toR_start_end L hL l (hin l hl)).1
@@ -178,6 +187,12 @@ theorem connect_ring_le_hull (ls : List Loc) (L : Int) (hne : ls ≠ []) (hL : 0
     exact List.map_congr_left fun l hl => (toR_start_end L hL l (hin l hl)).2
   rw [e1, e2] at h
   exact h
+
+/-- the origin-bridging gene `[50, 100) + [5, 10)` is read as the span `[50, 100) + [0, 10)`; with `[8, 60)` the
+    result is the whole record, five bases more than the line hull `100 − 5` -/
+theorem connect_ring_hull_not_for_bridging_genes :
+    connect [.compound [⟨50, 100, .fwd⟩, ⟨5, 10, .fwd⟩], .simple ⟨8, 60, .fwd⟩] (some 100) = .ok (.simple ⟨0, 100, .fwd⟩) := by
+  rfl
 
 /-- … and it is the shortest covering arc whenever one shorter than half the record exists: the
     result has no base outside ANY well-formed span `c` (one part, or two parts meeting at the
@@ -397,11 +412,18 @@ example : areaWF 100 100 (.compound [⟨95, 100, .fwd⟩, ⟨0, 30, .fwd⟩]) = 
     connect [areaTwo 95 10 100 .fwd, .simple ⟨20, 30, .fwd⟩] (some 100) = .ok (.compound [⟨95, 100, .fwd⟩, ⟨0, 30, .fwd⟩]) :=
   ⟨by rfl, by decide, by rfl⟩
 /-- a gene with an intron (does not bridge the origin) among the inputs -/
-example : RingIn 100 (.compound [⟨2, 8, .fwd⟩, ⟨12, 18, .fwd⟩]) :=
+example : RingInSpan 100 (.compound [⟨2, 8, .fwd⟩, ⟨12, 18, .fwd⟩]) :=
   Or.inl ⟨by simp [Loc.parts], by decide, by
     intro p hp; simp only [Loc.parts, List.mem_cons, List.mem_nil_iff, or_false] at hp
     rcases hp with rfl | rfl <;> decide⟩
 example : connect [.compound [⟨2, 8, .fwd⟩, ⟨12, 18, .fwd⟩], .simple ⟨80, 90, .rev⟩, areaTwo 95 1 100 .fwd] (some 100)
+    = .ok (.compound [⟨80, 100, .fwd⟩, ⟨0, 18, .fwd⟩]) := by rfl
+/-- an origin-bridging gene with an intron among the inputs -/
+example : RingIn 100 (.compound [⟨90, 100, .fwd⟩, ⟨2, 8, .fwd⟩, ⟨12, 18, .fwd⟩]) :=
+  ⟨by simp [Loc.parts], by
+    intro p hp; simp only [Loc.parts, List.mem_cons, List.mem_nil_iff, or_false] at hp
+    rcases hp with rfl | rfl | rfl <;> decide, fun _ => ⟨_, _, by rfl⟩⟩
+example : connect [.compound [⟨90, 100, .fwd⟩, ⟨2, 8, .fwd⟩, ⟨12, 18, .fwd⟩], .simple ⟨80, 85, .rev⟩] (some 100)
     = .ok (.compound [⟨80, 100, .fwd⟩, ⟨0, 18, .fwd⟩]) := by rfl
 /-- the span reading of a gene with an intron and of an origin-spanning input -/
 example : spanOf 100 (.compound [⟨2, 8, .fwd⟩, ⟨12, 18, .fwd⟩]) = .simple ⟨2, 18, .fwd⟩ ∧
